@@ -386,6 +386,8 @@ type specEnv struct {
 	// closed: references read from the current heap outside quantifiers are assumed to be nil or
 	// allocated (the heap is closed under allocation, as for the loads of the program itself)
 	closed bool
+	// inQuant: evaluation is below a quantifier binder (bound also holds the parameters of defines)
+	inQuant bool
 }
 
 func (x *fnCtx) applyContract(st *State, fr *Frame, in ssa.Instruction, con *Contract, sig *types.Signature, callee *ssa.Function, args []*Val, rt types.Type, full string) *Val {
